@@ -1138,7 +1138,7 @@ func ruleC01NAME(w *World) []Ob {
 	p := w.D()
 	l := &obs{rule: "C01-NAME", cfg: "D"}
 	parse := p.Func("(*markdown.Parser).Parse")
-	sep := p.Func("(*markdown.Parser).separateRow")
+	sep := separateRowBody(p)
 	gen := p.Func("(*gtree.nodeGenerator).generate")
 	if parse == nil || sep == nil || gen == nil {
 		l.undecided("markdown", "name chain", "-", "Parse / separateRow / generate not found", "name")
